@@ -20,11 +20,18 @@ impl<'a> Src<'a> {
         let v = pts_of(c);
         let cu = cum(&v);
         let total = *cu.last().unwrap();
-        let eps = 1e-9 * extent(&v).max(total);
+        // rounding allowance: 1e-9 of the curve's own size (bounding box / total length) plus 1e-12 of the coordinate
+        // magnitude (curves far from the origin: coordinates carry an absolute rounding error of magnitude * 2^-53)
+        let mut lo = [f64::INFINITY; 2]; let mut hi = [f64::NEG_INFINITY; 2];
+        for q in v.iter() { for k in 0..2 { lo[k] = lo[k].min(q[k]); hi[k] = hi[k].max(q[k]); } }
+        let size = (hi[0] - lo[0]).max(hi[1] - lo[1]).max(total);
+        let eps = 1e-9 * size + 1e-12 * extent(&v);
         Src { c, v, cu, total, eps, tol: c.tol(), desc }
     }
     fn p(&self, l: f64) -> P { at(&self.v, &self.cu, l) }
     fn in_range(&self, l: f64) -> bool { l >= 0.0 && l <= self.c.length() }
+    /// a request at least this long must succeed: 4 tol, and above rounding (curves with tol == 0)
+    fn min_len(&self) -> f64 { 4.0 * self.tol + self.eps }
     /// arc length travelled from l0 to l1 (through the seam when closed and l1 < l0)
     fn travel(&self, l0: f64, l1: f64) -> Option<f64> {
         if !self.in_range(l0) || !self.in_range(l1) { return None; }
@@ -65,8 +72,11 @@ fn check_piece(r: &mut Report, s: &Src, piece: &Curve2, l0: f64, l1: f64, what: 
     let slack = s.eps + 4.0 * s.tol;
     r.check(d(&v[0], &s.p(l0)) <= s.eps, &format!("{}: the portion starts at the point at the first length", what), || format!("{} -> first vertex {:?}, P(l0) = {:?}", call(), v[0], s.p(l0)));
     r.check(d(&v[n - 1], &s.p(l1)) <= s.eps + s.tol, &format!("{}: the portion ends at the point at the second length (within tol)", what), || format!("{} -> last vertex {:?}, P(l1) = {:?}", call(), v[n - 1], s.p(l1)));
-    let worst = v.iter().map(|p| poly_dist(&s.v, p)).fold(0.0, f64::max);
-    r.check(worst <= s.eps, &format!("{}: every vertex of the portion lies on the source curve", what), || format!("{} -> {:?} away", call(), worst));
+    // (curves of more than 200 vertices: membership is decided by the in-order clause below, which is linear)
+    if s.v.len() <= 200 {
+        let worst = v.iter().map(|p| poly_dist(&s.v, p)).fold(0.0, f64::max);
+        r.check(worst <= s.eps, &format!("{}: every vertex of the portion lies on the source curve", what), || format!("{} -> {:?} away", call(), worst));
+    }
     r.check(in_order(&v, &s.expected(l0, l1), s.eps), &format!("{}: vertices are P(l0), source vertices in source order, P(l1)", what), || format!("{} -> {:?}", call(), v));
     r.check((piece.length() - travel).abs() <= slack, &format!("{}: length equals the arc-length difference (through the seam when closed and l1 < l0)", what), || format!("{} -> length {:?}, expected {:?}", call(), piece.length(), travel));
     r.check(piece.tol() == s.tol, &format!("{}: the portion keeps the curve tolerance", what), call);
@@ -88,14 +98,20 @@ fn check_between(r: &mut Report, s: &Src, l0: f64, l1: f64) -> Option<Curve2> {
     match res {
         None => {
             // pieces only a few tolerances long may degenerate under de-duplication: no demand
-            if t >= 4.0 * s.tol { r.check(false, "between_lengths: a well-posed request (in range, at least 4 tol long) yields a portion", call); }
+            if t >= s.min_len() { r.check(false, "between_lengths: a well-posed request (in range, at least 4 tol long) yields a portion", call); }
             None
         }
         Some(piece) => { check_piece(r, s, &piece, l0, l1, "between_lengths", &call); Some(piece) }
     }
 }
 
-fn probes(s: &Src, full: bool) -> Vec<f64> {
+fn ulp_up(x: f64) -> f64 { if x == 0.0 { f64::from_bits(1) } else if x > 0.0 { f64::from_bits(x.to_bits() + 1) } else { f64::from_bits(x.to_bits() - 1) } }
+fn ulp_dn(x: f64) -> f64 { if x == 0.0 { -f64::from_bits(1) } else if x > 0.0 { f64::from_bits(x.to_bits() - 1) } else { f64::from_bits(x.to_bits() + 1) } }
+
+/// `ties`: additionally one ulp either side of stored vertex lengths (0 and L included: -5e-324 and L + 1 ulp are out of
+/// range), -0.0, and sqrt(tol) either side of them (all vertices of short curves; the first two, the middle and the last
+/// two of longer ones)
+fn probes(s: &Src, full: bool, ties: bool) -> Vec<f64> {
     let n = s.v.len();
     let tol = s.tol;
     let mut p = vec![0.0, s.c.length()];
@@ -103,13 +119,38 @@ fn probes(s: &Src, full: bool) -> Vec<f64> {
         let l = s.c.lengths()[i];
         p.push(l);
         if full { for o in [-2.0 * tol, -0.25 * tol, 0.5 * tol, 3.0 * tol] { p.push(l + o); } }
+        if ties && (n <= 8 || i < 2 || i + 2 >= n || i == n / 2) {
+            p.push(ulp_up(l)); p.push(ulp_dn(l));
+            let q = tol.sqrt();
+            if q > 0.0 && q < s.total * 0.25 { p.push(l + q); p.push(l - q); }
+        }
     }
+    if ties { p.push(-0.0); }
     for i in 0..n - 1 {
         let (a, b) = (s.c.lengths()[i], s.c.lengths()[i + 1]);
         p.push(a + (b - a) * 0.5);
         if full && (i < 3 || i == n - 2) { p.push(a + (b - a) * 0.25); p.push(a + (b - a) * 0.75); }
     }
     if full { p.extend_from_slice(&[-1.0 * s.total, 2.0 * s.total]); }
+    p.sort_by(|a, b| a.partial_cmp(b).unwrap());
+    p.dedup_by(|a, b| a.to_bits() == b.to_bits());
+    p
+}
+
+/// curves of more than 200 vertices: 0, L, the vertices around the indices 1, 32, 64, 128, 1024, 4096, n/2 and the last
+/// three, each also -2tol / +tol/2 / +3tol, and the mid points of the edges that follow them
+fn probes_long(s: &Src) -> Vec<f64> {
+    let n = s.v.len();
+    let ls = s.c.lengths();
+    let mut idx: Vec<usize> = vec![0, 1, 2, n / 2, n - 3, n - 2, n - 1];
+    for k in [32usize, 64, 128, 1024, 4096] { for j in [k - 1, k, k + 1] { if j < n { idx.push(j); } } }
+    idx.sort(); idx.dedup();
+    let mut p = vec![0.0, s.c.length(), -1.0 * s.total, ulp_up(s.c.length())];
+    for (k, &i) in idx.iter().enumerate() {
+        p.push(ls[i]);
+        if k % 3 == 1 { for o in [-2.0 * s.tol, 0.5 * s.tol, 3.0 * s.tol] { p.push(ls[i] + o); } }
+        if i + 1 < n && k % 2 == 0 { p.push(ls[i] + (ls[i + 1] - ls[i]) * 0.5); }
+    }
     p.sort_by(|a, b| a.partial_cmp(b).unwrap());
     p.dedup();
     p
@@ -129,19 +170,23 @@ fn probes2(s: &Src) -> Vec<f64> {
     p
 }
 
-fn check_curve(r: &mut Report, c: &Curve2, desc: String, depth: usize) {
+/// depth 0: the full probe set (`ties`: plus the tie probes); depth 1, 2: the reduced probe set on an extracted portion;
+/// curves of more than 200 vertices: the probe set of probes_long for every operation
+fn check_curve(r: &mut Report, c: &Curve2, desc: String, depth: usize, ties: bool) {
     let s = Src::new(c, desc);
     dog::subject(&s.desc);
-    let full = depth == 0;
-    let pr = if full { probes(&s, true) } else { probes2(&s) };
+    let long = c.count() > 200;
+    let full = depth == 0 && !long;
+    let pr = if long { probes_long(&s) } else if full { probes(&s, true, ties) } else { probes2(&s) };
     // ---- between_lengths over every ordered pair; a second portioning step on every 5th portion
     let mut k = 0usize;
     for &l0 in pr.iter() { for &l1 in pr.iter() {
         if let Some(piece) = check_between(r, &s, l0, l1) {
             k += 1;
-            if depth == 0 && k % 5 == 0 && piece.count() <= 12 {
+            // second step on every 5th portion; third step on every 7th portion of those
+            if ((depth == 0 && k % 5 == 0) || (depth == 1 && k % 7 == 0)) && piece.count() <= 12 {
                 let d2 = format!("{} .between_lengths({:?}, {:?}).unwrap()", s.desc, l0, l1);
-                check_curve(r, &piece, d2, 1);
+                check_curve(r, &piece, d2, depth + 1, false);
                 dog::subject(&s.desc);
                 // the second-step portions lie on the ORIGINAL curve as well
                 let s2 = Src::new(&piece, String::new());
@@ -160,8 +205,10 @@ fn check_curve(r: &mut Report, c: &Curve2, desc: String, depth: usize) {
         r.case();
         let call_f = || format!("{} .trim_front({:?})  [L = {:?}, tol = {:?}]", s.desc, x, s.total, s.tol);
         let call_b = || format!("{} .trim_back({:?})  [L = {:?}, tol = {:?}]", s.desc, x, s.total, s.tol);
-        let well = x >= 0.0 && x <= s.total - 4.0 * s.tol;
+        let well = x >= 0.0 && x <= s.total - s.min_len();
         let ill = !(x >= 0.0 && x <= s.total - s.tol);
+        // (a negative length too small to change L - length is not distinguishable from 0 for trim_back)
+        let ill_b = !((x >= 0.0 || s.c.length() - x == s.c.length()) && x <= s.total - s.tol);
         dog::call(1, x, f64::NAN, f64::NAN);
         match guarded(|| s.c.trim_front(x)) {
             Err(why) => r.check(false, "trim_front does not panic", || format!("{} -> {}", call_f(), why)),
@@ -182,7 +229,7 @@ fn check_curve(r: &mut Report, c: &Curve2, desc: String, depth: usize) {
             Err(why) => r.check(false, "trim_back does not panic", || format!("{} -> {}", call_b(), why)),
             Ok(None) => { if well { r.check(false, "trim_back: a well-posed request yields a curve", call_b); } }
             Ok(Some(t)) => {
-                if ill { r.check(false, "trim_back: an ill-posed request (negative, or leaving less than tol) yields None", call_b); }
+                if ill_b { r.check(false, "trim_back: an ill-posed request (negative, or leaving less than tol) yields None", call_b); }
                 else {
                     r.check((t.length() - (s.total - x)).abs() <= slack, "trim_back removes exactly the requested length", || format!("{} -> length {:?}", call_b(), t.length()));
                     let v = pts_of(&t);
@@ -197,7 +244,7 @@ fn check_curve(r: &mut Report, c: &Curve2, desc: String, depth: usize) {
         for &x in pr.iter() {
             r.case();
             let call = || format!("{} .split_open_at_length({:?})  [L = {:?}, tol = {:?}]", s.desc, x, s.total, s.tol);
-            let well = x >= 4.0 * s.tol && x <= s.total - 4.0 * s.tol;
+            let well = x >= s.min_len() && x <= s.total - s.min_len();
             let ill = !(x >= s.tol && x <= s.total - s.tol);
             dog::call(3, x, f64::NAN, f64::NAN);
             match guarded(|| s.c.split_open_at_length(x).ok()) {
@@ -216,12 +263,12 @@ fn check_curve(r: &mut Report, c: &Curve2, desc: String, depth: usize) {
         }
         r.check(guarded(|| c.split_closed_at_lengths(s.total * 0.25, s.total * 0.5).is_err()).unwrap_or(false), "split_closed_at_lengths on an open curve is an error", || s.desc.clone());
     } else {
-        let small = if full { probes(&s, false) } else { probes2(&s) };
+        let small = if long { pr.clone() } else if full { probes(&s, false, ties) } else { probes2(&s) };
         for &x in small.iter() { for &y in small.iter() {
             r.case();
             let call = || format!("{} .split_closed_at_lengths({:?}, {:?})  [L = {:?}, tol = {:?}]", s.desc, x, y, s.total, s.tol);
             let (t0, t1) = (s.travel(x, y).unwrap_or(0.0), s.travel(y, x).unwrap_or(0.0));
-            let well = t0 >= 4.0 * s.tol && t1 >= 4.0 * s.tol && (x - y).abs() >= 4.0 * s.tol;
+            let well = t0 >= s.min_len() && t1 >= s.min_len() && (x - y).abs() >= s.min_len();
             dog::call(4, x, y, f64::NAN);
             match guarded(|| s.c.split_closed_at_lengths(x, y).ok()) {
                 Err(why) => r.check(false, "split_closed_at_lengths does not panic", || format!("{} -> {}", call(), why)),
@@ -239,7 +286,7 @@ fn check_curve(r: &mut Report, c: &Curve2, desc: String, depth: usize) {
         r.check(guarded(|| c.split_open_at_length(s.total * 0.5).is_err()).unwrap_or(false), "split_open_at_length on a closed curve is an error", || s.desc.clone());
     }
     // ---- control-point variant
-    let small = if full { probes(&s, false) } else { let q = probes2(&s); q.iter().cloned().step_by(2).collect() };
+    let small: Vec<f64> = if long { pr.iter().cloned().step_by(5).collect() } else if full { probes(&s, false, false) } else { let q = probes2(&s); q.iter().cloned().step_by(2).collect() };
     let mut ctrl = small.clone();
     if full { ctrl.extend_from_slice(&[-0.5 * s.total, -2.0 * s.tol, s.total + 2.0 * s.tol]); }
     for &a in small.iter() { for &b in small.iter() { for &ct in ctrl.iter() {
@@ -264,7 +311,7 @@ fn check_curve(r: &mut Report, c: &Curve2, desc: String, depth: usize) {
             }
             (None, Some((x, y))) => {
                 let t = s.travel(x, y).unwrap_or(0.0);
-                if t >= 4.0 * s.tol && (x - y).abs() >= 4.0 * s.tol { r.check(false, "between_lengths_by_control: a well-posed request yields the piece containing the control", call); }
+                if t >= s.min_len() && (x - y).abs() >= s.min_len() { r.check(false, "between_lengths_by_control: a well-posed request yields the piece containing the control", call); }
             }
             (Some(p), Some((x, y))) => {
                 if s.travel(x, y).is_some() && (x - y).abs() >= s.tol {
@@ -324,7 +371,7 @@ fn run_inner() -> Report {
             let c = match Curve2::from_points(&v, tol, fc) { Ok(c) => c, Err(_) => continue };
             let ps: Vec<String> = v.iter().map(|p| format!("({:?},{:?})", p.x, p.y)).collect();
             let desc = format!("Curve2::from_points([{}], tol={:?}, force_closed={}) [{} x 2^{}]", ps.join(","), tol, fc, name, k);
-            check_curve(&mut r, &c, desc, 0);
+            check_curve(&mut r, &c, desc, 0, false);
         }
     }
     r
